@@ -14,6 +14,22 @@ def witness_cases(kf):
     return kf["witness"]["cases"]
 
 
+def replay_fixed(res, prop, mode, drv):
+    """witnesses of repaired findings run first: a recurrence is a violation"""
+    import os
+    path = os.path.join(common.VERIF, "findings.d", prop + ".json")
+    for fw in json.load(open(path)).get("fixed_witnesses", []):
+        cases = fw["cases"]
+        if mode == "json":
+            out = runner.impl_json_text(drv, [(c["schema"], c["doc"]) for c in cases])
+        else:
+            out = runner.impl_cbor_bytes(drv, [(c["schema"], bytes.fromhex(c["doc"])) for c in cases])
+        for c, a in zip(cases, out):
+            if runner.verdict_of(a) != c["spec"]:
+                res.violation("repaired finding %s is back: %s validation of %s against %s gives %s, specified %s" % (fw["id"], mode, c["doc"], c["schema"].strip(), a[:100], c["spec"]),
+                              {"mode": mode, "schema": c["schema"], "doc": c["doc"], "doc_sexp": "", "schema_sexp": "", "impl": a, "model": c["spec"]})
+
+
 def replay_known(res, prop, mode, drv):
     for kf in common.known_findings(prop):
         still = 0
@@ -136,6 +152,7 @@ def run(prop, prop_file, mode, tier, seed):
     phases["cargo_and_oracle_build"] = round(time.time() - t0, 1); t0 = time.time()
     rng = random.Random(seed)
     cbor = mode == "cbor"
+    replay_fixed(res, prop, mode, drv)
     replay_known(res, prop, mode, drv)
     n_schemas = (1500 if tier == "quick" else 40000) * (2 if not proved else 1)
     pairs, classes, stats = gen_pairs(rng, mode, n_schemas)
